@@ -64,7 +64,7 @@ Section WithOpts.
   Variable o : sopts.
 
   Definition ser_doctype (name pub sys : option str) : str * list str :=
-    let d0 := s_doctype ++ match name with Some n => n | None => s_None end in
+    let d0 := s_doctype ++ match name with Some n => n | None => [] end in      (* token["name"] or "" (repaired in /repo: it wrote the word None) *)
     let '(d1, e1) :=
       if nonempty pub then
         let p := oget pub in
